@@ -271,7 +271,11 @@ def violations(sc, profile='debug', only=None, res=None, include_known=False):
                     got.add((fa['right'], tuple(int(round(sh[a] / w[a])) for a in range(3))))
                 elif fa['shift'] is None and sel(fa['left']):
                     got.add((fa['left'], (0, 0, 0)))
-            if mask is None and got != want:
+            if mask is not None:
+                # under a mask only faces towards unselected neighbours or stored by this cell are guaranteed to be listed by it:
+                # every face of the full cell is listed (own, or stored by a selected lower-index neighbour), so the sets still agree
+                pass
+            if got != want:
                 add('C06', 'cell %d has faces towards (generator, lattice shift) %r, in the replicated tessellation towards %r' % (k, sorted(got), sorted(want)))
     # ---- C02: positive measures that sum to the box
     if mask is None or all(mask):
